@@ -152,8 +152,10 @@ def _chunk(pid, tier, base_seed, idxs, wall_per_run, selfcheck):
         if res["kind"] == "error":
             agg["errors"].append({"i": i, "seed": seed, "params": params, "detail": res["detail"]})
         elif not res["ok"]:
-            first_of_class = not any(f["cls"] == res["cls"] and f.get("sig") == res["sig"] and f["recorded"] for f in agg["failures"])
-            if len(agg["failures"]) < 8 or first_of_class:      # every failure class of a chunk keeps one replayable witness
+            nclass = sum(1 for f in agg["failures"] if f["cls"] == res["cls"] and f.get("sig") == res["sig"] and f["recorded"])
+            # every failure class of a chunk keeps a replayable witness (two at most: the draws of a run that ends at its step cap
+            # are hundreds of thousands of numbers, and thousands of them would have to travel to the parent)
+            if nclass < (2 if len(agg["failures"]) < 8 else 1):
                 agg["failures"].append({"i": i, "seed": seed, "params": params, "cls": res["cls"], "sig": res["sig"],
                                         "detail": res["detail"], "digest": res["digest"], "recorded": res["recorded"],
                                         "kind": res["kind"], "report": res.get("report")})
@@ -314,7 +316,12 @@ def _merge(t, a):
     t["scheds"] |= a["scheds"]
     t["states"] |= a["states"]
     t["nontriv"] |= a["nontriv"]
-    t["failures"].extend(a["failures"])
+    for f in a["failures"]:
+        if f.get("recorded") is not None:
+            have = sum(1 for g in t["failures"] if g["cls"] == f["cls"] and g.get("sig") == f.get("sig") and g.get("recorded") is not None)
+            if have >= 4:
+                f = dict(f, recorded=None, report=None, detail=(f.get("detail") or "")[:200])
+        t["failures"].append(f)
     t["errors"].extend(a["errors"])
     t["nondet"].extend(a["nondet"])
     for s in a["samples"]:
